@@ -26,7 +26,7 @@ var Dq = []string{
 	`[[1,2],[3]]`,
 	`{"b":2,"a":1,"c":{"z":1,"y":2}}`,
 	`{"~1":1,"/":2,"a~1b":{"~0":[1]},"a/b":{"~":[2]},"~01":3,"~~":{"~~/~":4}}`,
-	`{"":{"":1,"b":[{"":2}]},"a":{"b":3}}`,
+	`{"":{"":1,"b":[{"":2}]},"a":{"b":3},"-1":{"-2":[0]}}`,
 	// sizes beyond the usual small-value fast paths: a 70-byte member name, a 200-byte string, a 66-byte number
 	`{"` + strings.Repeat("n", 70) + `":{"x":"` + strings.Repeat("s<", 100) + `"},"k":[` + strings.Repeat("9", 66) + `]}`,
 }
@@ -52,12 +52,13 @@ type AlphaCfg struct {
 	Values      []*rj.Value // for add (all pointers)
 	ReplValues  []*rj.Value // for replace
 	Kinds       map[string]bool
-	NoRootPtr   bool // leave "" out (legacy domain: no root add / copy from "")
-	EnsureLen   int  // >0: the alphabet is SigmaEnsure(EnsureLen, Values) instead
-	NoRootAdd   bool // drop add "" and copy from "" (not offered by the legacy package)
-	MaxFroms    int  // >0: at most this many resolvable move/copy sources (evenly spread), plus the misses and ghosts
-	RootOnly    bool // keep only operations whose path is "" (whole-document add / replace)
-	InteriorNeg bool // also address the children of a last array element through the token -1 (negative index as an interior token)
+	NoRootPtr   bool                       // leave "" out (legacy domain: no root add / copy from "")
+	EnsureLen   int                        // >0: the alphabet is SigmaEnsure(EnsureLen, Values) instead
+	NoRootAdd   bool                       // drop add "" and copy from "" (not offered by the legacy package)
+	MaxFroms    int                        // >0: at most this many resolvable move/copy sources (evenly spread), plus the misses and ghosts
+	Custom      func(d *rj.Value) []r69.Op // a hand-picked alphabet instead of Sigma(D) (scale documents)
+	RootOnly    bool                       // keep only operations whose path is "" (whole-document add / replace)
+	InteriorNeg bool                       // also address the children of a last array element through the token -1 (negative index as an interior token)
 }
 
 type ptrInfo struct {
@@ -172,6 +173,9 @@ func Sigma(d *rj.Value, cfg *AlphaCfg) []r69.Op { return SigmaFrom(d, cfg, nil) 
 // SigmaFrom: orig is the document the sequence started from (nil at the first level): test also
 // offers the value a location had THEN, spelled as it was in the source (a stale-cache probe).
 func SigmaFrom(d *rj.Value, cfg *AlphaCfg, orig *rj.Value) []r69.Op {
+	if cfg.Custom != nil {
+		return cfg.Custom(d)
+	}
 	if cfg.EnsureLen > 0 {
 		return SigmaEnsure(cfg.EnsureLen, cfg.Values)
 	}
